@@ -356,6 +356,12 @@ fn signed_block(height: u64, prev: BlockHash, txs: Vec<Transaction>, proposer: &
     b
 }
 
+/// a genuine validator endorsement of `b`: signature by `who` over the block hash
+fn endorse(b: &mut Block, who: &Identity) {
+    let h = b.hash();
+    let _ = b.add_signature(ValidatorSignature { validator: who.node_id(), signature: who.sign(&h), block_hash: h });
+}
+
 // ------------------------------------------------------------------------------------------------
 // part: sequential programs
 // ------------------------------------------------------------------------------------------------
@@ -479,11 +485,29 @@ fn seq_case(case_seed: u64, r: &mut Report) {
                     }
                 }
                 let was_closed = wss[i].closed;
+                // fault: the proposer's key is absent from the validator registry while this commit
+                // runs (removed / being rotated), so the block is refused by append AFTER the
+                // workspace's writes were applied; the key is registered again right afterwards
+                let keyless = !was_closed && !wss[i].ops.is_empty() && rng.chance(1, 5);
+                if keyless {
+                    let me = chain.node_id().clone();
+                    let _ = chain.validator_registry().remove(&me);
+                }
                 let res = chain.commit(&wss[i].h);
+                if keyless {
+                    chain.register_validator(chain.identity());
+                    r.count("seq_commit_with_proposer_key_absent", 1);
+                    if res.is_err() {
+                        r.count("seq_commit_failed_after_apply", 1);
+                        if wss[i].begun_at_change != changes {
+                            r.count("seq_commit_failed_after_apply_with_later_blocks", 1);
+                        }
+                    }
+                }
                 let states: Vec<TransactionState> = wss.iter().map(|w| w.h.state()).collect();
                 match res {
                     Ok(hash) => {
-                        trace.push(format!("commit(w{})=Ok", i));
+                        trace.push(format!("commit{}(w{})=Ok", if keyless { "-keyless" } else { "" }, i));
                         if was_closed {
                             fail!("seq:commit-of-finished-workspace-succeeded", format!("commit(w{}) returned Ok although the workspace was {} before", i, state_name(pre_states[i])));
                         }
@@ -530,7 +554,7 @@ fn seq_case(case_seed: u64, r: &mut Report) {
                     }
                     Err(e) => {
                         let cls = first_line(&e.to_string());
-                        trace.push(format!("commit(w{})=Err({})", i, cls));
+                        trace.push(format!("commit{}(w{})=Err({})", if keyless { "-keyless" } else { "" }, i, cls));
                         if !was_closed && states[i] == TransactionState::Committed {
                             fail!("seq:commit-err-but-state-committed", format!("commit(w{}) = Err({}) but the workspace is Committed", i, e));
                         }
@@ -600,6 +624,14 @@ fn seq_case(case_seed: u64, r: &mut Report) {
                 } else {
                     signed_block(pre_height + 1, pre_tip, txs.clone(), &id2, None, None, &[], vec![])
                 };
+                let mut blk = blk;
+                if rng.chance(1, 3) {
+                    endorse(&mut blk, &id2);
+                    if rng.bool() {
+                        endorse(&mut blk, chain.identity());
+                    }
+                    r.count("seq_append_with_endorsements", 1);
+                }
                 match chain.append_block(blk) {
                     Ok(_) => {
                         blocks.push(txs);
@@ -730,6 +762,10 @@ struct TamperCtx<'a> {
     id2: &'a Identity,
     outsider: &'a Identity,
     other_hash: BlockHash,
+    /// another stored block of the same chain (source of genuine signed elements to transplant)
+    other: &'a Block,
+    /// a stored block (not this one) that carries validator endorsements, if any
+    endorsed_other: Option<&'a Block>,
 }
 
 /// every single-field mutation of `b` (class, variant, mutated block)
@@ -874,10 +910,66 @@ fn mutations(b: &Block, cx: &TamperCtx, rng: &mut Rng) -> Vec<(&'static str, Str
         add("tx-removed", "all".into(), &|m| m.transactions.clear());
     }
     // validator signature list
-    add("validator-signatures", "push".into(), &|m| {
+    add("validator-signatures", "push-garbage".into(), &|m| {
         let h = m.hash();
         m.signatures.push(ValidatorSignature { validator: "v".into(), signature: vec![1, 2, 3], block_hash: h })
     });
+    add("validator-signatures", "push-signed-by-unregistered".into(), &|m| {
+        let h = m.hash();
+        m.signatures.push(ValidatorSignature { validator: cx.outsider.node_id(), signature: cx.outsider.sign(&h), block_hash: h })
+    });
+    add("validator-signatures", "push-unregistered-key-validator-name".into(), &|m| {
+        let h = m.hash();
+        m.signatures.push(ValidatorSignature { validator: cx.id2.node_id(), signature: cx.outsider.sign(&h), block_hash: h })
+    });
+    for i in 0..b.signatures.len().min(3) {
+        let pos = rng.below(b.signatures[i].signature.len().max(1) * 8);
+        add("validator-signatures", format!("entry{}-signature-bitflip", i), &|m| {
+            if !m.signatures[i].signature.is_empty() {
+                m.signatures[i].signature[pos / 8] ^= 1 << (pos % 8)
+            }
+        });
+        add("validator-signatures", format!("entry{}-validator-renamed", i), &|m| {
+            m.signatures[i].validator = if m.signatures[i].validator == cx.chain_id.node_id() { cx.id2.node_id() } else { cx.chain_id.node_id() }
+        });
+        add("validator-signatures", format!("entry{}-block-hash-bitflip", i), &|m| flip(&mut m.signatures[i].block_hash, bit));
+        add("validator-signatures", format!("entry{}-block-hash-of-other-block", i), &|m| m.signatures[i].block_hash = cx.other_hash);
+        // the entries are not committed to by anything the proposer signed: dropping, repeating or
+        // reordering genuine entries is judged as its own class
+        add("validator-signature-list", format!("entry{}-removed", i), &|m| {
+            m.signatures.remove(i);
+        });
+        add("validator-signature-list", format!("entry{}-repeated", i), &|m| {
+            let e = m.signatures[i].clone();
+            m.signatures.push(e);
+        });
+        if i + 1 < b.signatures.len() {
+            add("validator-signature-list", format!("entries{}<->{}", i, i + 1), &|m| m.signatures.swap(i, i + 1));
+        }
+    }
+    // ---- genuine signed elements moved in from ANOTHER stored block
+    if let Some(src) = cx.endorsed_other {
+        for (k, e) in src.signatures.iter().enumerate().take(2) {
+            add("transplanted-validator-signature", format!("entry{}-of-block{}-appended", k, src.header.height), &|m| m.signatures.push(e.clone()));
+            if !b.signatures.is_empty() {
+                add("transplanted-validator-signature", format!("entry{}-of-block{}-replaces-entry0", k, src.header.height), &|m| m.signatures[0] = e.clone());
+            }
+        }
+        add("transplanted-validator-signature", format!("whole-list-of-block{}", src.header.height), &|m| m.signatures = src.signatures.clone());
+    }
+    if b.header.height > 0 && cx.other.header.height > 0 {
+        add("transplanted-proposer-signature", format!("from-block{}", cx.other.header.height), &|m| m.header.signature = cx.other.header.signature.clone());
+        add("transplanted-header", format!("from-block{}", cx.other.header.height), &|m| m.header = cx.other.header.clone());
+        add("transplanted-header", format!("from-block{}-height-kept", cx.other.header.height), &|m| {
+            let hh = m.header.height;
+            m.header = cx.other.header.clone();
+            m.header.height = hh;
+        });
+        if !cx.other.transactions.is_empty() {
+            add("transplanted-transactions", format!("list-of-block{}", cx.other.header.height), &|m| m.transactions = cx.other.transactions.clone());
+            add("transplanted-transactions", format!("first-of-block{}-appended", cx.other.header.height), &|m| m.transactions.push(cx.other.transactions[0].clone()));
+        }
+    }
     out
 }
 
@@ -888,6 +980,8 @@ fn tamper_case(case_seed: u64, r: &mut Report) {
     let chain = TensorChain::with_config(TensorStore::new(), cfg);
     let id2 = Identity::generate();
     chain.register_validator(&id2);
+    let id3 = Identity::generate();
+    chain.register_validator(&id3);
     let outsider = Identity::generate();
     if let Err(e) = chain.initialize() {
         r.violation("tamper:initialize-failed", format!("{}", e), replay);
@@ -901,8 +995,15 @@ fn tamper_case(case_seed: u64, r: &mut Report) {
     counts[rng.below(2)] = 3;
     counts[2 + rng.below(2)] = *rng.pick(&[5usize, 6, 7]);
     let mut shapes = Vec::new();
+    // at least two blocks carry validator endorsements (so that a genuine entry of one block can
+    // be moved into another)
+    let mut hows: Vec<usize> = (0..nblocks).map(|_| rng.below(6)).collect();
+    let e1 = rng.below(nblocks);
+    let e2 = (e1 + 1 + rng.below(nblocks - 1)) % nblocks;
+    hows[e1] = 5;
+    hows[e2] = 5;
     for (bi, &n) in counts.iter().enumerate() {
-        let how = rng.below(5);
+        let how = hows[bi];
         let h = chain.height();
         let res = if how <= 2 {
             let ws = match chain.begin() {
@@ -927,6 +1028,18 @@ fn tamper_case(case_seed: u64, r: &mut Report) {
             let txs: Vec<Transaction> = (0..n).map(|_| g.op(&format!("b{}", bi), &model)).collect();
             let b = chain.new_block().add_transactions(txs).with_dense_embedding(&[0.5, 0.0, 2.0]).with_codes(vec![3, 9]).sign_and_build(chain.identity());
             shapes.push(format!("append{}", n));
+            chain.append_block(b).map(|_| ())
+        } else if how == 5 {
+            let txs: Vec<Transaction> = (0..n).map(|_| g.op(&format!("b{}", bi), &model)).collect();
+            let mut b = chain.new_block().add_transactions(txs).sign_and_build(chain.identity());
+            let who = rng.below(3);
+            if who != 1 {
+                endorse(&mut b, &id2);
+            }
+            if who != 0 {
+                endorse(&mut b, &id3);
+            }
+            shapes.push(format!("append{}-endorsed{}", n, b.signatures.len()));
             chain.append_block(b).map(|_| ())
         } else {
             let txs: Vec<Transaction> = (0..n).map(|_| g.op(&format!("b{}", bi), &model)).collect();
@@ -1004,7 +1117,9 @@ fn tamper_case(case_seed: u64, r: &mut Report) {
         let obytes = record_block_bytes(&originals[h as usize]).unwrap_or_default();
         let scope = if h == 0 { "genesis" } else { "block" };
         let other = ((h + 1 + rng.below(height as usize) as u64) % (height + 1)) as usize;
-        let cx = TamperCtx { chain_id: chain.identity(), id2: &id2, outsider: &outsider, other_hash: orig_blocks[other].hash() };
+        let endorsed: Vec<&Block> = orig_blocks.iter().filter(|b| b.header.height != h && !b.signatures.is_empty()).collect();
+        let endorsed_other = if endorsed.is_empty() { None } else { Some(endorsed[rng.below(endorsed.len())]) };
+        let cx = TamperCtx { chain_id: chain.identity(), id2: &id2, outsider: &outsider, other_hash: orig_blocks[other].hash(), other: &orig_blocks[other], endorsed_other };
         for (class, variant, m) in mutations(ob, &cx, &mut rng) {
             let bytes = match bitcode::serialize(&m) {
                 Ok(b) => b,
@@ -1035,21 +1150,6 @@ fn tamper_case(case_seed: u64, r: &mut Report) {
                 if dec == *ob {
                     r.count("tamper_rawflip_decodes_to_same_block", 1);
                     continue;
-                }
-                let mut d2 = dec.clone();
-                d2.signatures = ob.signatures.clone();
-                if d2 == *ob {
-                    // only the validator signature list changed: that class is judged above
-                    continue;
-                }
-                if h == 0 {
-                    let mut d3 = dec.clone();
-                    d3.header.signature = ob.header.signature.clone();
-                    d3.transactions = ob.transactions.clone();
-                    d3.signatures = ob.signatures.clone();
-                    if d3 == *ob {
-                        continue;
-                    }
                 }
             }
             experiment(r, scope, "raw-bitflip", &format!("bit{}", pos), h, vec![(h, Some(record_with_block(&originals[h as usize], bytes)))], None);
@@ -1122,7 +1222,7 @@ fn conc_case(case_seed: u64, r: &mut Report, forced_mode: Option<u64>) {
     let prefix = rng.below(3);
     let dim = 8usize;
     let am = if auto_merge { AutoMergeConfig::default().with_window(u64::MAX) } else { AutoMergeConfig::disabled() };
-    let chain = TensorChain::with_config(TensorStore::new(), ChainConfig::new("n").with_auto_merge_config(am));
+    let chain = Arc::new(TensorChain::with_config(TensorStore::new(), ChainConfig::new("n").with_auto_merge_config(am)));
     if let Err(e) = chain.initialize() {
         r.violation("concurrent-commit:initialize-failed", format!("{}", e), replay);
         return;
@@ -1194,6 +1294,10 @@ fn conc_case(case_seed: u64, r: &mut Report, forced_mode: Option<u64>) {
         ops_of.push(ops);
     }
     let prefix_height = chain.height();
+    // some committers fail late: when they reach the hook (pre-image taken, nothing applied yet) the
+    // proposer key disappears from the validator registry, so append refuses their block after
+    // their writes were applied; the key is registered again when their commit call has returned
+    let fail_late: Vec<bool> = (0..n).map(|_| rng.chance(1, 4)).collect();
 
     // ---- run
     let tick = AtomicU64::new(1);
@@ -1214,13 +1318,22 @@ fn conc_case(case_seed: u64, r: &mut Report, forced_mode: Option<u64>) {
             let gate = gates[i].clone();
             let ht = hook_ticks[i].clone();
             let jseed = case_seed ^ (i as u64 + 1).wrapping_mul(0x9E37_79B9);
+            let fl = fail_late[i];
+            let chain_h = Arc::clone(chain);
             hs.push(sc.spawn(move || {
+                let at_hook = move |ht2: &AtomicU64| {
+                    ht2.store(1, Ordering::SeqCst);
+                    if fl {
+                        let me = chain_h.node_id().clone();
+                        let _ = chain_h.validator_registry().remove(&me);
+                    }
+                };
                 let handler: sched::Handler = if mode == 0 {
                     let j = sched::jitter(jseed);
                     let ht2 = ht.clone();
                     Arc::new(move |name: &'static str| {
                         if name == HOOK {
-                            ht2.store(1, Ordering::SeqCst);
+                            at_hook(&ht2);
                         }
                         j(name)
                     })
@@ -1229,7 +1342,7 @@ fn conc_case(case_seed: u64, r: &mut Report, forced_mode: Option<u64>) {
                     let ht2 = ht.clone();
                     Arc::new(move |name: &'static str| {
                         if name == HOOK {
-                            ht2.store(1, Ordering::SeqCst);
+                            at_hook(&ht2);
                         }
                         p(name)
                     })
@@ -1246,6 +1359,9 @@ fn conc_case(case_seed: u64, r: &mut Report, forced_mode: Option<u64>) {
                 let res = chain.commit(&ws);
                 let rt = tick.fetch_add(1, Ordering::SeqCst);
                 sched::set_thread_handler(None);
+                if fl {
+                    chain.register_validator(chain.identity());
+                }
                 done.store(true, Ordering::SeqCst);
                 let hook = if ht.load(Ordering::SeqCst) != 0 { Some(1) } else { None };
                 match res {
@@ -1325,6 +1441,7 @@ fn conc_case(case_seed: u64, r: &mut Report, forced_mode: Option<u64>) {
             .map(|h| h.join().unwrap_or(ConcOutcome { ok: None, err: Some("<commit panicked>".into()), inv: 0, res: 0, hook: None }))
             .collect()
     });
+    chain.register_validator(chain.identity());
     if harness_timeout || gates.iter().any(|g| g.timed_out()) {
         r.inconclusive("concurrent: a parked committer was not released in time (harness watchdog)");
         return;
@@ -1345,6 +1462,11 @@ fn conc_case(case_seed: u64, r: &mut Report, forced_mode: Option<u64>) {
     r.count("conc_commit_err", outcomes.iter().filter(|o| o.err.is_some()).count() as u64);
     if overlapping {
         r.count("conc_cases_with_overlapping_calls", 1);
+    }
+    let late = outcomes.iter().filter(|o| o.err.as_deref().map_or(false, |e| e.contains("unknown proposer"))).count() as u64;
+    r.count("conc_commit_failed_after_apply", late);
+    if late > 0 && outcomes.iter().any(|o| o.ok.is_some()) {
+        r.count("conc_cases_with_late_failure_and_success", 1);
     }
     if mode == 1 {
         r.count("conc_parked_cases", 1);
